@@ -65,7 +65,7 @@ enum Expect {
 
 fn gen_step(t: &mut Tape<'_>) -> Step {
     let d = t.below(30);
-    match t.below(34) {
+    match t.below(36) {
         0 | 1 | 2 => Step::Eval { src: "inc(); acc.length".into(), expect: Expect::Ok(1) },
         3 => Step::Eval { src: format!("for (var i = 0; i < {}; i++) inc(i); acc.length", 1 + t.below(5)), expect: Expect::Ok(0) },
         4 => Step::Eval { src: "throw new Error('top')".into(), expect: Expect::Fails },
@@ -79,6 +79,13 @@ fn gen_step(t: &mut Tape<'_>) -> Step {
         12 => Step::Eval { src: "deepRecNative(0)".into(), expect: Expect::Fails },
         13 => Step::Eval { src: "var x = ;".into(), expect: Expect::Fails },
         14 => Step::Eval { src: "try { thrower(5) } catch (e) { inc('caught') } acc.length".into(), expect: Expect::Ok(1) },
+        34 | 35 => {
+            // failures of NESTED host entries (a native calling back into JS) caught by the script, many
+            // times within one evaluation: whatever they leave behind accumulates until the outer entry returns
+            let n = 20 + t.below(150); // below the smallest loop limit of the grid
+            let f = ["throwerNative(1)", "throwerGetter(2)", "boundThrower()", "proxyThrow()", "new KT()", "[1].forEach(function () { thrower(2) })", "Reflect.apply(thrower, null, [1])", "JSON.parse('[1]', function () { throw 1 })", "'a'.replace(/a/, function () { thrower(0) })", "[2, 1].sort(function () { thrower(1) })", "KT()"][t.below(11)];
+            Step::Eval { src: format!("for (var q = 0; q < {n}; q++) {{ try {{ {f} }} catch (e) {{}} }} inc(); acc.length"), expect: Expect::Ok(1) }
+        }
         15 => Step::Eval { src: "JSON.parse('[1,[2]]', function (k, v) { if (k === '0' && v === 2) throw new Error('reviver'); return v; })".into(), expect: Expect::Fails },
         16 => Step::Eval { src: "try { deepRec(0) } catch (e) { inc('never') }".into(), expect: Expect::Fails },
         17 => Step::Eval { src: "deepCatch(0)".into(), expect: Expect::Fails },
